@@ -553,7 +553,7 @@ pub fn run(args: &Args) {
 				}
 			}
 			for (z, present) in levels.iter() {
-				let boxes = gen_boxes(&mut rng, *z, present, if dense || ocean { 3 } else { 2 }, args.n(22, 60));
+				let boxes = gen_boxes(&mut rng, *z, present, if dense || ocean { 3 } else { 2 }, args.n(16, 60));
 				run_in_world(&rt, &mut out, &mut id, &w, "C02", "S", "L0", &boxes_arg(&boxes));
 				// the reader models on the real file's index / table
 				if kind == "versatiles" || kind == "vtx" {
@@ -609,7 +609,7 @@ pub fn run(args: &Args) {
 	}
 
 	// ---------------- Part A2: mbtiles files with SQLite storage-class / schema freedoms (oracle only)
-	for v in 0..args.n(10, 40) as u64 {
+	for v in 0..args.n(8, 40) as u64 {
 		let coords = gen_coords(&mut rng, 40, true);
 		let (fmt, comp) = if rng.chance(1, 2) { (1, 1) } else { (2, 0) };
 		let tiles = assign_ids_style(&mut rng, &coords, &mut next, 0);
